@@ -989,3 +989,43 @@ pub fn check_c16(cx: &Ctx, rep: &mut Report) {
         }
     }
 }
+
+// ---------------------------------------------------------------------------------------
+// C18 (pointer part): the cached last-message pointer designates the head of the valid messages
+// ---------------------------------------------------------------------------------------
+
+pub fn pointer_mismatch(go: &GroupObs) -> Option<(Option<String>, Option<String>)> {
+    // default order: created_at DESC, then (processed_at is wall clock: scenarios give distinct created_at), id DESC
+    let mut valid: Vec<&Value> = go.messages.iter().filter(|m| m["state"] != "epoch_invalidated").collect();
+    valid.sort_by(|a, b| (b["created_at"].as_u64(), b["id"].as_str()).cmp(&(a["created_at"].as_u64(), a["id"].as_str())));
+    let head = valid.first().and_then(|m| m["id"].as_str()).map(|s| s.to_string());
+    let ptr = go.record["last_message_id"].as_str().map(|s| s.to_string());
+    if head != ptr { Some((ptr, head)) } else { None }
+}
+
+pub fn check_c18_pointer(cx: &Ctx, rep: &mut Report) {
+    let g = cx.g;
+    let mut seen: std::collections::BTreeSet<String> = Default::default();
+    for s in 0..g.states.len() {
+        let Some(go) = &g.states[s].g else { continue };
+        rep.case(&format!("ptr|{}|{}", go.messages.len(), go.record["last_message_id"].is_null()));
+        let Some((ptr, head)) = pointer_mismatch(go) else { continue };
+        if std::env::var("VERIF_DEBUG").is_ok() {
+            eprintln!("pointer mismatch in state {s} of {}: ptr={ptr:?} head={head:?}", g.member);
+        }
+        let ptr_state = ptr.as_ref().and_then(|p| go.messages.iter().find(|m| m["id"].as_str() == Some(p.as_str()))).map(|m| m["state"].as_str().unwrap_or("?").to_string()).unwrap_or_else(|| if ptr.is_none() { "none".into() } else { "not-stored".into() });
+        let class = format!("pointer-is-{}|head-is-{}", ptr_state, if head.is_some() { "another-message" } else { "nothing" });
+        // minimal history: the last step of the shortest path is what broke it
+        if let Some((p, _)) = g.states[s].parent {
+            if g.states[p].g.as_ref().and_then(pointer_mismatch).is_some() {
+                continue;
+            }
+        }
+        let path = g.path_to(s);
+        let last = abstract_trace(cx, &path).rsplit(';').next().unwrap_or("").to_string();
+        let sig = format!("C18|pointer-not-head-of-valid-messages|{class}|broken-by={last}");
+        if seen.insert(sig.clone()) {
+            rep.finding(sig, format!("member {}: after [{}] the last-message pointer is {ptr:?} ({ptr_state}) but the first valid message of the default order is {head:?}", g.member, trace_labels(cx, &path).join(" ; ")), detail(cx, &path, json!({"pointer": ptr, "head": head})));
+        }
+    }
+}
